@@ -6,3 +6,9 @@ add("C16",
     "Generated-input search over source sets for uncaught exceptions, non-termination, malformed/ill-located/synthetic diagnostics and rendering failures across front end, back end, format_errors and the embossc CLI; finds shallow and pass-interaction crashes, does not prove absence.",
     "Trusts: Python runtime; a 120 s per-case limit as the termination judge; position (n+1,1) counts as inside an n-line file.",
     "DESIGN.md §4 C16")
+
+add("C10",
+    "property-based testing (Hypothesis text strategy + seeded structured generators) against an independent reference tokenizer compiled from doc/grammar.md, plus coverage/position/indentation invariants and prose-derived classification; atheris coverage-guided tier in thorough",
+    "Differential + invariant search over generated source texts (token soup, look-alike lexemes, mixed indentation, all Unicode line terminators, mutated corpus). Explores ~10^4 (quick) to ~10^5-10^6 (thorough) texts; finds disagreement with the documented pattern table or broken positions; not exhaustive.",
+    "Trusts: Python's re module and str.splitlines/isspace as the definition of lines and whitespace; doc/grammar.md as the specification of patterns.",
+    "DESIGN.md §4 C10")
